@@ -111,10 +111,13 @@ def cmd_check(prop, tier, seed, jobs, only=None, verbose=False):
     fp = tree_fingerprint()
     os.makedirs(os.path.join(ROOT, "replays"), exist_ok=True)
     evdir = os.environ.get("VF_EVIDENCE_DIR") or os.path.join(ROOT, "evidence")
+    if only and not os.environ.get("VF_EVIDENCE_DIR"):
+        evdir = os.path.join(ROOT, "scratch", "partial-evidence")  # a filtered run never overwrites the real evidence
     os.makedirs(evdir, exist_ok=True)
 
     violations, undecided, crashes, known_seen = [], [], [], []
     negative_ok = []
+    by_backend = {"z3": 0, "cvc5": 0, "evaluated-concretely": 0}
     obligations = discharged = 0
     named = named_ok = 0
     solver_s = 0.0
@@ -194,6 +197,9 @@ def cmd_check(prop, tier, seed, jobs, only=None, verbose=False):
                     named += 1
                     obligations += c["vcs"]
                     discharged += c["discharged"]
+                    by_backend["cvc5"] += c.get("cvc5", 0)
+                    by_backend["evaluated-concretely"] += c.get("trivial", 0)
+                    by_backend["z3"] += c["discharged"] - c.get("cvc5", 0) - c.get("trivial", 0)
                     if c["status"] == "proved":
                         named_ok += 1
                     if len(samples) < 6:
@@ -242,6 +248,7 @@ def cmd_check(prop, tier, seed, jobs, only=None, verbose=False):
             obligations=obligations, discharged=discharged, named_obligations=named, named_discharged=named_ok,
             checker_cmd=cmd,
             backends={"z3": z3_version(), "cvc5": "second opinion on z3 'unknown'"},
+            discharged_by_backend=by_backend,
             solver_s=round(solver_s, 2),
             trusted_base=sorted(trusted) + ["CPython 3.12 interpreter, numpy object-dtype dot/inner/prod (executed, not modelled)",
                                             "z3 4.x/5.x SMT solver (cvc5 on unknowns)", "vfw engine (symx.py, harness.py): cross-checked against CPython on %d/%d path models this run" % (xc_ok, xc_models)],
